@@ -81,13 +81,28 @@ package fsnotify
 
 //@ func (w *watches) removePath(path string) (wds []uint32, err error)
 //@   mode modeA: !enableRecurse
+//@   mode modeB: enableRecurse                    [C19]
 //@   requires held(shared.mu) && w.wd != nil && w.path != nil && TablesInv(w)
-//@   let p = filepath.Clean(path)
+//@   let isRec = enableRecurse && filepath.Base(filepath.Clean(path)) == "..."
+//@   let p = ite(isRec, filepath.Dir(filepath.Clean(path)), filepath.Clean(path))
+//@   let rootRec = old(w.wd)[old(w.path)[p]].recurse
 //@   ensures err != nil ==> w.wd == old(w.wd) && w.path == old(w.path)                           [C04] "a failed Remove leaves the set untouched"
 //@   ensures !has(old(w.path), p) ==> err != nil && errIs(err, ErrNonExistentWatch)              [C04 C07 C09] "Remove of a path not in the list fails with ErrNonExistentWatch"
 //@   ensures errIs(err, ErrNonExistentWatch) ==> !has(old(w.path), p)                            [C04]
 //@   ensures modeA && has(old(w.path), p) ==> err == nil && len(wds) == 1 && wds[0] == old(w.path)[p] &&
 //@             w.path == del(old(w.path), p) && w.wd == del(old(w.wd), old(w.path)[p])             [C04 C09 C12] "exactly that entry leaves both tables"
+//@   ensures modeB && err == nil ==> forall(q, string, has(w.path, q) <==> (has(old(w.path), q) && q != p && !(rootRec && strings.HasPrefix(q, p + "/"))))     [C19] "removing a recursive watch removes exactly its own tree from the list, and nothing else"
+//@   ensures modeB && err == nil ==> forall(k, uint32, has(w.wd, k) <==> (has(old(w.wd), k) && old(w.wd)[k].path != p && !(rootRec && strings.HasPrefix(old(w.wd)[k].path, p + "/"))))   [C19] "and exactly the watches of that tree from the descriptor table"
+//@   ensures modeB && err == nil ==> forall(q, string, has(w.path, q) ==> w.path[q] == old(w.path)[q]) && forall(k, uint32, has(w.wd, k) ==> w.wd[k] == old(w.wd)[k])   [C19] "the remaining watches are untouched"
+//@   ensures modeB ==> TablesInv(w)                                                              [C19]
+//@   loop 1 "for p, rwd := range w.path"
+//@     invariant held(shared.mu) && w.wd != nil && w.path != nil
+//@     invariant forall(q, string, has(w.path, q) <==> (has(old(w.path), q) && q != path && !(has(visited, q) && strings.HasPrefix(q, path + "/"))))
+//@     invariant forall(q, string, has(w.path, q) ==> w.path[q] == old(w.path)[q])
+//@     invariant forall(k, uint32, has(w.wd, k) <==> (has(old(w.wd), k) && k != wd && !(has(visited, old(w.wd)[k].path) && strings.HasPrefix(old(w.wd)[k].path, path + "/"))))
+//@     invariant forall(k, uint32, has(w.wd, k) ==> w.wd[k] == old(w.wd)[k])
+//@     invariant forall(q, string, has(visited, q) ==> has(old(w.path), q) && q != path)
+//@     invariant len(wds) >= 1
 
 //@ func (w *inotify) remove(name string) (err error)
 //@   mode modeA: !enableRecurse
@@ -95,7 +110,8 @@ package fsnotify
 //@   requires forall(k, uint32, has(w.watches.wd, k) ==> has(K, k) || has(Pending, k))
 //@   requires forall(k, uint32, has(K, k) ==> has(w.watches.wd, k))
 //@   requires forall(k, uint32, !(has(K, k) && has(Pending, k)))
-//@   let p = filepath.Clean(name)
+//@   let isRec = enableRecurse && filepath.Base(filepath.Clean(name)) == "..."
+//@   let p = ite(isRec, filepath.Dir(filepath.Clean(name)), filepath.Clean(name))
 //@   let P0 = old(w.watches.path)
 //@   let W0 = old(w.watches.wd)
 //@   ensures TablesInv(w.watches)                                                                 [C01 C02 C04 C07 C08 C09 C12]
